@@ -208,11 +208,12 @@ class MibCompiler(object):
         symbolTableMap = {}
         mibsToParse = [x for x in mibnames]
         canonicalMibNames = {}
+        fetchedMibs = set()
 
         while mibsToParse:
             mibname = mibsToParse.pop(0)
 
-            if mibname in parsedMibs:
+            if mibname in parsedMibs or mibname in fetchedMibs:
                 debug.logger & debug.flagCompiler and debug.logger('MIB %s already parsed' % mibname)
                 continue
 
@@ -256,6 +257,9 @@ class MibCompiler(object):
                         debug.logger & debug.flagCompiler and debug.logger(
                             '%s (%s) read from %s, immediate dependencies: %s' % (
                                 mibInfo.name, mibname, fileInfo.path, ', '.join(mibInfo.imported) or '<none>'))
+
+                    # the file may hold modules named unlike the name it was asked by
+                    fetchedMibs.add(mibname)
 
                     break
 
